@@ -207,6 +207,9 @@ Definition recog_nthash (h : bytes) : option rfields :=
   else None.
 
 (* ---- argon2: $argon2id$[v=N$]m=M,t=T,p=P$salt$sum ---- *)
+(* recognise.go also rejects an empty digest; the implementation (and the model) take an empty Sum
+   fragment ("...$salt$$") as a digest of length 0 and answer the mismatch sentinel, so that condition is
+   not part of the layout and is left out here. *)
 (* a member "k=text" of the parameter group: the key byte and the text after '=' *)
 Definition member_kv (m : bytes) : option (Z * bytes) :=
   match m with
@@ -238,7 +241,7 @@ Definition recog_argon2_rest (pre : bytes) (version : Z) (params salt sum : byte
     | Some (ka, va), Some (kb, vb), Some (kc, vc) =>
       if negb (ka =? kb) && negb (ka =? kc) && negb (kb =? kc)
          && negb (has_comma salt) && negb (has_comma sum)
-         && in_alpha EncBase64 salt && in_alpha EncBase64 sum && negb (nil_b sum) then
+         && in_alpha EncBase64 salt && in_alpha EncBase64 sum then
         let l := [(ka, va); (kb, vb); (kc, vc)] in
         match lookup_key 109 l, lookup_key 116 l, lookup_key 112 l with
         | Some m, Some t, Some p => Some (mk_r salt [m; t; p; version] pre false sum)
